@@ -97,7 +97,7 @@ func genMut(t *rapid.T, stream []byte, lists []esl.List) Mut {
 }
 
 func genCase(t *rapid.T) Case {
-	lists := gen.ESLStream(4).Draw(t, "stream")
+	lists := gen.ESLStreamHuge(4).Draw(t, "stream")
 	// keep streams small so that every truncation point can be tried
 	for i := range lists {
 		if lists[i].Size > 16+64 {
